@@ -66,10 +66,24 @@ def judge(ctx, label, cases, timeout=1500):
     return False, hwm, reason, r
 
 
-def validate_cases(ctx, label, cases, blobs, argv, max_rounds=10):
-    """Judge all cases; report every rejected one (violation) or raise Infra (drift); continue without it.
-    Returns the number of cases accepted by the specification."""
+def validate_cases(ctx, label, cases, blobs, argv, max_rounds=10, batch=12000):
+    """Judge all cases (in batches: one JVM holds one batch); report every rejected one (violation), collect drift,
+    continue without it. Returns the number of cases accepted by the specification."""
+    total = 0
     drift = []
+    for b in range(0, len(cases), batch):
+        total += validate_batch(ctx, "%s-%d" % (label, b // batch), cases[b:b + batch], blobs, argv, max_rounds, drift)
+    if drift:
+        kind, key, reason, ev = drift[0]
+        if ev.get("rule") == "valid" and ev.get("var") == "rebuilt_identity":
+            raise Infra("the rebuilt base block is not handled as valid (%s): pipeline trouble: %s" % (key, reason))
+        raise Infra("specification drift (%s) at %s: %s; observed fresh/warm/node=%s/%s/%s class=%s/%s/%s err=%s (+%d more)" %
+                    (kind, key, reason, ev.get("fresh"), ev.get("warm"), ev.get("node"), ev.get("cfresh"), ev.get("cwarm"),
+                     ev.get("cnode"), ev.get("err"), len(drift) - 1))
+    return total
+
+
+def validate_batch(ctx, label, cases, blobs, argv, max_rounds, drift):
     pending = list(cases)
     accepted_total = 0
     for rnd in range(max_rounds):
@@ -101,13 +115,6 @@ def validate_cases(ctx, label, cases, blobs, argv, max_rounds=10):
             break
     else:
         ctx.cov["validation_stopped_early"] = "more than %d rejected cases in batch %s; the rest was not judged" % (max_rounds, label)
-    if drift:
-        kind, key, reason, ev = drift[0]
-        if ev.get("rule") == "valid" and ev.get("var") == "rebuilt_identity":
-            raise Infra("the rebuilt base block is not handled as valid (%s): pipeline trouble: %s" % (key, reason))
-        raise Infra("specification drift (%s) at %s: %s; observed fresh/warm/node=%s/%s/%s class=%s/%s/%s err=%s (+%d more)" %
-                    (kind, key, reason, ev.get("fresh"), ev.get("warm"), ev.get("node"), ev.get("cfresh"), ev.get("cwarm"),
-                     ev.get("cnode"), ev.get("err"), len(drift) - 1))
     return accepted_total
 
 
